@@ -1,38 +1,45 @@
 #!/bin/bash
-# tools/seedtest.sh <Cxx> <tag> [checks...]   e.g. tools/seedtest.sh C12 a   or  tools/seedtest.sh C12 a C12 C13
-# Verifies one independently written property-breaking change (from /tmp/seedout/<Cxx>/<Cxx><tag>.*):
+# tools/seedtest.sh <Cxx> <tag> [checks...]      (STEP=1: only validate the change; STEP=2: only run the checks)
+# Verifies one independently written property-breaking change (/tmp/seedout/<Cxx>/<Cxx><tag>.* or seeded/<Cxx><tag>/):
 #  1. in a scratch worktree: the demo test passes without the change and fails with it; the full test suite still passes with it
-#  2. applies it to /repo, runs the quick check(s), and undoes it straight away
-# Prints a one-line verdict per step.  Nothing is committed anywhere.
+#  2. applies it to /repo (git apply), runs the quick check(s), and undoes it straight away (git checkout -- .)
 set -u
 id=$1; tag=$2; shift 2
 checks=${*:-$id}
-src=/tmp/seedout/$id
+src=${SEEDSRC:-/tmp/seedout/$id}
 patch=$src/$id$tag.patch.diff; demo=$src/$id${tag}_demo_test.go
-[ -f "$patch" ] || { echo "no patch $patch"; exit 2; }
+[ -f "$patch" ] || { patch=/verif/seeded/$id$tag/patch.diff; demo=$(ls /verif/seeded/$id$tag/*_demo_test.go | head -1); }
+[ -f "$patch" ] || { echo "no patch for $id$tag"; exit 2; }
 export PATH=/root/go/pkg/mod/golang.org/toolchain@v0.0.1-go1.25.0.linux-amd64/bin:$PATH GOTOOLCHAIN=local GOFLAGS=-mod=mod GOPROXY=off
-wt=/tmp/seedverify-$id$tag
-git -C /repo worktree remove --force $wt 2>/dev/null; rm -rf $wt
-git -C /repo worktree add -q $wt HEAD || exit 2
-trap 'git -C /repo worktree remove --force '$wt' 2>/dev/null; git -C /repo checkout -- . 2>/dev/null' EXIT
-place=$(head -1 "$demo" | sed -n 's#.*place in: *\([^ ]*\).*#\1#p'); place=${place%/}
-[ -n "$place" ] || place=.
-cp "$demo" "$wt/$place/zz_seed_demo_test.go"
-runfilter=$(grep -o '^func Test[A-Za-z0-9_]*' "$demo" | sed 's/func //' | paste -sd'|')
-extra=""; grep -q '"needs_race"\s*:\s*true\|go test -race' "$src/$id$tag.meta.json" 2>/dev/null && extra="-race"
-echo "== demo without the change"
-(cd $wt && go test -vet=off -count=1 $extra -run "^($runfilter)\$" ./$place 2>&1 | tail -3); r0=${PIPESTATUS[0]}
-(cd $wt && git apply "$patch") || { echo "SEED $id$tag: patch does not apply"; exit 2; }
-echo "== demo with the change"
-(cd $wt && go test -vet=off -count=1 $extra -run "^($runfilter)\$" ./$place 2>&1 | tail -5)
-rm -f "$wt/$place/zz_seed_demo_test.go"
-echo "== full test suite with the change"
-(cd $wt && go build ./... 2>&1 | grep -v "movie.mp4\|viewer-tests" | head -5; go test -vet=off -count=1 ./... 2>&1 | grep -v "^ok\|no test files\|viewer-tests\|movie.mp4\|^FAIL$" | head -10)
-echo "== checks on /repo with the change"
+step=${STEP:-all}
+if [ "$step" != 2 ]; then
+  wt=/tmp/seedverify-$id$tag
+  git -C /repo worktree remove --force $wt 2>/dev/null; rm -rf $wt
+  git -C /repo worktree add -q $wt HEAD || exit 2
+  place=$(head -1 "$demo" | sed -n 's#.*place in: *\([^ ]*\).*#\1#p'); place=${place%/}
+  [ -n "$place" ] && [ -d "$wt/$place" ] || place=.
+  cp "$demo" "$wt/$place/zz_seed_demo_test.go"
+  runfilter=$(grep -o '^func Test[A-Za-z0-9_]*' "$demo" | sed 's/func //' | paste -sd'|')
+  echo "== $id$tag demo without the change"
+  (cd $wt && go test -vet=off -count=1 -run "^($runfilter)\$" ./$place 2>&1 | tail -2)
+  if (cd $wt && git apply "$patch"); then
+    echo "== $id$tag demo with the change"
+    (cd $wt && go test -vet=off -count=1 -run "^($runfilter)\$" ./$place 2>&1 | grep -E "^(--- FAIL|FAIL|ok|panic)" | head -4)
+    rm -f "$wt/$place/zz_seed_demo_test.go"
+    echo "== $id$tag full test suite with the change (only unexpected lines are shown)"
+    (cd $wt && go test -vet=off -count=1 ./... 2>&1 | grep -v "^ok\|no test files\|viewer-tests\|movie.mp4\|^FAIL$" | head -10)
+    echo "== $id$tag step 1 done"
+  else
+    echo "SEED $id$tag: patch does not apply"
+  fi
+  git -C /repo worktree remove --force $wt 2>/dev/null
+fi
+[ "$step" = 1 ] && exit 0
+echo "== $id$tag checks on /repo with the change"
 git -C /repo apply "$patch" || { echo "SEED $id$tag: does not apply to /repo"; exit 2; }
 for c in $checks; do
-  out=$(cd /verif && VERIF_EVIDENCE_DIR=/verif/.build/seed-evidence VERIF_NO_RACE_PASS=${VERIF_NO_RACE_PASS:-} ./run.sh $c ${TIER:-quick} 2>&1); rc=$?
-  echo "$out" | grep -E "^\[|^  " | cut -c1-260 | head -6
+  out=$(cd /verif && VERIF_EVIDENCE_DIR=/verif/.build/seed-evidence ./run.sh $c ${TIER:-quick} 2>&1); rc=$?
+  echo "$out" | grep -E "^\[C|^  " | cut -c1-300 | head -5
   if [ $rc = 1 ] && echo "$out" | grep -q "^VIOLATION property=$c "; then echo "SEED $id$tag vs $c: DETECTED"; else echo "SEED $id$tag vs $c: MISSED (exit $rc)"; fi
 done
 git -C /repo checkout -- .
